@@ -376,6 +376,7 @@ structure CDesc where
   f : FinDag := { n := 0, slots := [], down := [], starters := [], onExec := [], fails := [], rank := [] }
   kids : List Nat := []
   prev : Bool := false
+  hits : List Nat := []     -- children that answer from their cache in the run to come (observed)
 
 /-- value a child's output holds from an earlier run -/
 def prevVal (i : Nat) : Val := .app (1000 + i) []
@@ -507,8 +508,12 @@ def reportComp (t : Tree Path) (c : CDesc) (sortDone : Bool := false) : List Str
   | some (_, s, kids) =>
     let ids := List.range c.f.n
     -- a child that completed in THIS run wrote its output; otherwise it holds what it held when the run started
+    -- a cache hit is a completion like any other for the composite (start, finish, `ran` through the queue) — only the
+    -- function is not invoked and the output stays what it was
+    let hit (i : Nat) : Bool := c.hits.contains i && s.st i = .done
     let cls (i : Nat) : String :=
       if isComp (kids i) then "-"
+      else if hit i then "prev"
       else if s.st i = .done then "new"
       else if (s.out i).isNd then "ND" else "prev"
     [ s!"{tag} over {phaseOver s.phase}",
@@ -516,7 +521,7 @@ def reportComp (t : Tree Path) (c : CDesc) (sortDone : Bool := false) : List Str
       s!"{tag} exec {showNats s.execLog}",
       s!"{tag} done {showNats (if sortDone then sortNats s.doneLog else s.doneLog)}",
       s!"{tag} st " ++ " ".intercalate (ids.map fun i => s!"{i}:{showSt (s.st i)}"),
-      s!"{tag} calls " ++ " ".intercalate (ids.map fun i => s!"{i}:{s.calls i}"),
+      s!"{tag} calls " ++ " ".intercalate (ids.map fun i => s!"{i}:{if hit i then 0 else s.calls i}"),
       s!"{tag} cls " ++ " ".intercalate (ids.map fun i => s!"{i}:{cls i}"),
       s!"{tag} running {showNats s.running}" ]
 
@@ -671,6 +676,9 @@ def step' (s : DSt) (ws : List String) : DSt × List String :=
   | "kids" :: ks => match nats ks, s.updCur (fun c => c) with
     | some ks, some _ => ((s.updCur fun c => { c with kids := ks }).getD s, [])
     | _, _ => (s, ["bad-op"])
+  | "hits" :: hs => match nats hs, s.updCur (fun c => c) with
+    | some hs, some _ => ((s.updCur fun c => { c with hits := hs }).getD s, [])
+    | _, _ => (s, ["bad-op"])
   | ["prev"] => match s.updCur (fun c => { c with prev := true }) with
     | some s' => (s', [])
     | none => (s, ["bad-op"])
@@ -795,7 +803,10 @@ def step' (s : DSt) (ws : List String) : DSt × List String :=
       let total := (s.descs.map (·.f.n)).sum
       let ed : Path → Edit Path := fun p =>
         match findDesc s.descs p with
-        | some c => { fails := c.f.toDag.fails, onExec := c.f.toDag.onExec, exc := fun i => p ++ [i], reset := true }
+        | some c =>
+          -- a child that answers from its cache neither raises nor goes to the executor
+          { fails := fun i => c.f.toDag.fails i && !c.hits.contains i,
+            onExec := fun i => c.f.toDag.onExec i && !c.hits.contains i, exc := fun i => p ++ [i], reset := true }
         | none => { fails := fun _ => false, onExec := fun _ => false, exc := fun i => p ++ [i], reset := true }
       let g := runComp [] { t := nrestart t ed, toks := s.nsched, fuel := 16 * (total + 4) * (total + 4) + 64 }
       let status := match g.err with
